@@ -45,8 +45,9 @@ class F:  # field
 
 
 class Shape:
-    def __init__(self, kind, fields):
+    def __init__(self, kind, fields, vattr=None):
         self.kind, self.fields = kind, fields   # kind: unit | tuple | named
+        self.vattr = vattr                      # variant-level `#[debug("literal")]` (fields referred to by name inside the literal)
 
 
 class TypeDef:
@@ -82,12 +83,14 @@ def decl_vfields(shape, mode):
 
 def needs_hand(td):
     shapes = [td.struct] if td.struct else [v[1] for v in td.variants]
-    return any(f.skip or f.attr for s in shapes for f in s.fields)
+    return any(f.skip or f.attr for s in shapes for f in s.fields) or any(s.vattr for s in shapes)
 
 
 def builder_body(shape, path_name, binds, mode):
     """std-builder code for one struct/variant. binds: expressions of the fields (references)."""
     name = unraw(path_name)
+    if shape.vattr:
+        return 'f.write_fmt(format_args!("%s"))' % shape.vattr
     if shape.kind == "unit":
         return 'f.write_str("%s")' % name
     exhaustive = not any(f.skip for f in shape.fields)
@@ -134,7 +137,7 @@ def typedef_text(td, mode):
     vs = []
     arms = []
     for vname, s in td.variants:
-        vs.append("%s%s" % (vname, decl_vfields(s, mode)))
+        vs.append("%s%s%s" % ('#[debug("%s")] ' % s.vattr if (s.vattr and mode == "dm") else "", vname, decl_vfields(s, mode)))
         names = [f.name if s.kind == "named" else "_%d" % i for i, f in enumerate(s.fields)]
         if s.kind == "unit":
             pat = "Self::%s" % vname
@@ -287,6 +290,22 @@ def gen_cases(thorough):
             tds.append(td)
             vals += [variant_value(td, v, s, 0) for v, s in td.variants]
     add(tds, vals, "skip subsets (enum variants)")
+    # H. a variant-level format attribute on one variant: its siblings must still print exactly as std prints them
+    sib = [("unit", lambda: Shape("unit", [])), ("t1", lambda: Shape("tuple", [F(None, "i32")])), ("t2", lambda: Shape("tuple", [F(None, "i32"), F(None, "&'static str")])),
+           ("n2", lambda: Shape("named", [F("a", "i32"), F("b", "Vec<i32>")])), ("n1skip", lambda: Shape("named", [F("a", "i32", skip=True), F("b", "In1")]))]
+    own = [("unit", lambda: Shape("unit", [], vattr="custom")), ("t1", lambda: Shape("tuple", [F(None, "i32")], vattr="own <{_0:?}>")),
+           ("n1", lambda: Shape("named", [F("a", "i32")], vattr="own {a} {a:x?}"))]
+    tds, vals = [], []
+    for oi, (oname, omk) in enumerate(own):
+        for pos in (0, 1, 2):
+            for si in range(0, len(sib), 2):
+                pair = [sib[si % len(sib)], sib[(si + 1 + oi) % len(sib)]]
+                vs = [("S0", pair[0][1]()), ("S1", pair[1][1]())]
+                vs.insert(pos, ("Own", omk()))
+                td = TypeDef("Em%d_%d_%d" % (oi, pos, si), variants=vs)
+                tds.append(td)
+                vals += [variant_value(td, v, sh, 0) for v, sh in td.variants]
+    add(tds, vals, "variant-level format attribute on one variant, siblings without")
     # G. field-level format attribute on one field
     for kind in ("tuple", "named"):
         tds, vals = [], []
